@@ -10,6 +10,7 @@ CONSTANTS
   Buf = 2
   Fixes = {"D1", "D14", "D2", "D18", "D19", "D20", "D21", "D23"}
   ColorOnly = FALSE
+  Modes = {}
 VIEW View
 ACTION_CONSTRAINT Edge
 CHECK_DEADLOCK FALSE
